@@ -26,6 +26,7 @@ import itertools
 import json
 import math
 import os
+import zlib
 
 from .. import runner
 from ..ref import dual
@@ -191,9 +192,10 @@ MG, MJ = ('loss:>[w b]',), ('[w b]∂g',)
 
 
 def plan(cfg):
-    """Rows (family, env_id, max_nodes, forms, grid tag, backends): every tree of the family with <= max_nodes nodes over
-    the environment is evaluated under each form on each backend at every point of GRID^n ('G') or SUB^n ('S') inside its
-    smooth domain.  family: 'grad' | 'jac' | 'mgrad' | 'mjac'.  Rows overlap; per (tree, form, backend) the larger grid wins."""
+    """Rows (family, env_id, max_nodes, forms, grid tag, backends[, 'all-params']): every tree of the family with at most
+    max_nodes nodes over the environment (with the optional 7th field: only trees in which every named parameter occurs)
+    is evaluated under each form on each backend at every point of GRID^n ('G') or SUB^n ('S') inside its smooth domain.
+    family: 'grad' | 'jac' | 'mgrad' | 'mjac'.  Rows overlap; per (tree, form, backend) the larger grid wins."""
     if cfg.quick:
         return [
             ('grad', 'xs', 3, SINGLE_FORMS, 'G', BOTH),
@@ -460,6 +462,37 @@ def in_sub(p):
     return all(x in SUB for x in p)
 
 
+U32, U64 = 2.0 ** -24, 2.0 ** -53
+STEP = 1e-6           # documented default step of numeric_grad / numeric_jacobian in double precision
+
+
+def ill_conditioned(env, tree, p, tk, scale):
+    """Consulted only when an answer misses its tolerance: True when the point lies outside the *well-conditioned* domain
+    for that kind of differentiation, i.e. when the error that is inherent in the method exceeds the tolerance for some
+    derivative entry - autograd in single precision: 4 * 2^-24 * (first-order sensitivity of the exact derivative to a
+    relative perturbation of every intermediate result); central difference in double precision: 2 * (|error of a
+    faultless central difference with the documented step h = 1e-6 over the reference's own values| + 2^-53 *
+    (sensitivity of f) / h).  Both bounds come from the reference alone."""
+    s = dual.sensitivity(tree, env, list(p))
+    if s is None:
+        return True
+    sv, sd = s
+    rows = dual.evaluate(tree, env, list(p))
+    rows = rows if isinstance(rows, list) else [rows]
+    if tk == 'torch':
+        inh = [[4.0 * U32 * x for x in row] for row in sd]
+    else:
+        cd = dual.ideal_central_difference(tree, env, list(p), STEP)
+        if cd is None:
+            return True
+        inh = [[2.0 * (abs(c - rows[r].d[j]) + U64 * sv[r] / STEP) for j, c in enumerate(row)] for r, row in enumerate(cd)]
+    for r, row in enumerate(rows):
+        for j, d in enumerate(row.d):
+            if inh[r][j] > ATOL[tk] * scale + RTOL[tk] * abs(d):
+                return True
+    return False
+
+
 def run_item(item, out):
     fam, env_id, tree, spec = item
     env = ENVS[env_id]
@@ -485,6 +518,7 @@ def run_item(item, out):
     results = {}
     first_bad = {}
     nbad = {}
+    illc = {}
     for backend in backends:
         k = interp(backend)
         try:
@@ -524,6 +558,12 @@ def run_item(item, out):
                 tk = tolerance(form, backend)
                 good = o[0] == 'ok' and agree(o[1], exp, RTOL[tk], ATOL[tk] * scale)
                 results[(backend, form, p)] = normalise(o[1], exp) if good else None
+                if not good and o[0] == 'ok':
+                    if (tk, p) not in illc:
+                        illc[(tk, p)] = ill_conditioned(env, tree, p, tk, scale)
+                    if illc[(tk, p)]:
+                        out['excused_ill_conditioned'] += 1
+                        continue
                 if not good:
                     fk = (backend, form)
                     nbad[fk] = nbad.get(fk, 0) + 1
@@ -559,7 +599,7 @@ def run_item(item, out):
     out['points_in_domain'] += len(pts)
     out['distinct_nontrivial'] += nz
     out['distinct_gradients'] += len({fmt(plain(exp)) for _, (_, exp, _) in pts})
-    if len(out['samples']) < 6 and nz:
+    if nz and zlib.crc32(text.encode('utf8')) % 211 == 0:      # a fixed pseudo-random subset, independent of the fan-out
         p, (scale, exp, _) = pts[len(pts) // 2]
         out['samples'].append([env_id, forms[0], text, fmt(list(p)), fmt(plain(exp))])
 
@@ -586,7 +626,7 @@ def _agree_pair(a, b, rtol, atol):
 def new_out():
     return dict(trees=0, trees_without_point=0, points_outside_domain=0, points_in_domain=0, evaluations=0,
                 value_checks=0, value_mismatch=[], cross_backend_pairs=0, distinct_nontrivial=0, distinct_gradients=0,
-                viol=[], samples=[], timeouts=0, skipped_no_literal=0)
+                viol=[], samples=[], timeouts=0, skipped_no_literal=0, excused_ill_conditioned=0)
 
 
 def worker(items):
@@ -656,7 +696,7 @@ def run(cfg):
         points_outside_domain=total['points_outside_domain'], trees_without_point=total['trees_without_point'],
         distinct_gradients=total['distinct_gradients'], value_checks=total['value_checks'],
         cross_backend_pairs=total['cross_backend_pairs'], timeouts=total['timeouts'],
-        skipped_no_literal=total['skipped_no_literal'],
+        skipped_no_literal=total['skipped_no_literal'], excused_ill_conditioned=total['excused_ill_conditioned'],
         plan=[[r[0], r[1], r[2], list(r[3]), {'G': 'GRID^n', 'S': 'SUB^n'}[r[4]], list(r[5])] + list(r[6:])
               for r in plan(cfg)],
         samples=sorted(total['samples'])[:12], oracle_selfcheck='passed')
@@ -668,6 +708,12 @@ def run(cfg):
         'Tolerances: numeric 1e-5 relative + 1e-7*max(1,|f(p)|) absolute; torch 1e-4 relative + 1e-6*max(1,|f(p)|); '
         'the absolute term is scaled by |f| because the rounding floor of a central difference is proportional to |f| '
         '(weaker than a pure relative bound, never stronger).',
+        'Well-conditioned domain: an answer that misses its tolerance is not judged when the error inherent in the method '
+        'already exceeds the tolerance at that point for some entry (single precision: 4*2^-24*sensitivity of the exact '
+        'derivative to relative perturbations of the intermediates; central difference: 2*(error of a faultless central '
+        'difference with the documented step 1e-6 over the reference\'s own values + 2^-53*sensitivity(f)/h)); both bounds '
+        'are computed from the reference only '
+        '(excused_ill_conditioned counts these evaluations; exceptions are never excused).',
         'The shape of a multi-parameter Jacobian block for a scalar parameter is not fixed by the statement: m and m x 1 '
         'are both accepted.',
         'The point of `p∇f` is a literal; a negative real scalar has none in that position (`-1.5∇f` is -(1.5∇f) and ∇ '
@@ -703,7 +749,9 @@ def replay(cfg, path):
         o = evaluate_one(k, setup, expr)
         tk = tolerance(c['form'], backend)
         good = e is not None and o[0] == 'ok' and agree(o[1], e[1], RTOL[tk], ATOL[tk] * e[0])
+        excused = not good and e is not None and o[0] == 'ok' and ill_conditioned(env, tree, p, tk, e[0])
         print('%-6s %s -> %s  %s' % (backend, expr, ('ok:' + fmt(o[1])) if o[0] == 'ok' else 'exc:' + o[1],
-                                     'within tolerance' if good else 'VIOLATION'))
-        bad += not good
+                                     'within tolerance' if good else
+                                     'outside the well-conditioned domain (not judged)' if excused else 'VIOLATION'))
+        bad += not (good or excused)
     return 1 if bad else 0
